@@ -7,7 +7,7 @@ theorem Inv.taskUpd {P : Program} {s s' : St} {k : Key} {t' : Task}
     (h1 : s'.env = s.env) (h2 : s'.epoch = s.epoch) (h3 : s'.mem = s.mem)
     (h4 : s'.db = s.db) (h5 : s'.dbIter = s.dbIter) (h6 : s'.status = s.status) (h7 : s'.task = upd s.task k t')
     (h8 : s'.pending = s.pending) (h9 : s'.target = s.target) (h10 : s'.started = s.started)
-    (h11 : s'.validSeen = s.validSeen)
+    (h11 : s'.validSeen = s.validSeen) (h12 : s'.registered = s.registered) (h13 : s'.sigAt = s.sigAt)
     (hk : inflight s k = true → t'.started = true → TaskOk P s' k)
     (hi : Inv P s) : Inv P s' := by
   have ha : active s' ↔ active s := active_congr h10
@@ -48,8 +48,10 @@ theorem Inv.taskUpd {P : Program} {s s' : St} {k : Key} {t' : Task}
       · rw [hte, h6]; exact t.running
       · rw [hte, h6, h3, h1]; exact t.computing
   · intro k hfl; rw [hf] at hfl; exact ha.2 (hi.inflightActive k hfl)
-  · rw [h6, h11, h1, h3]; exact hi.validOk
+  · rw [h6, h11, h1, h3, h13]; exact hi.validOk
   · rw [h9, h6, h11]; exact hi.validIdle
+  · rw [h12, h13]; exact hi.sigAtOk
+  · rw [h6, h12]; exact hi.scanReg
 
 /-- `create`: the rule's task is created (the dependency list is cleared by `Inv.memDeps` afterwards) -/
 theorem Inv.toRunning {P : Program} {s s' : St} {k : Key}
@@ -57,7 +59,7 @@ theorem Inv.toRunning {P : Program} {s s' : St} {k : Key}
     (h4 : s'.db = s.db) (h5 : s'.dbIter = s.dbIter) (h6 : s'.status = upd s.status k .running)
     (h7 : s'.task = upd s.task k {})
     (h8 : s'.pending = s.pending) (h9 : s'.target = s.target) (h10 : s'.started = s.started)
-    (h11 : s'.validSeen = s.validSeen)
+    (h11 : s'.validSeen = s.validSeen) (h12 : s'.registered = s.registered) (h13 : s'.sigAt = s.sigAt)
     (hs : s.status k = .needsRun)
     (hi : Inv P s) : Inv P s' := by
   have hst : s.started = true := started_of_status hi (by rw [hs]; simp)
@@ -122,11 +124,17 @@ theorem Inv.toRunning {P : Program} {s s' : St} {k : Key}
     rw [hst'] at hx
     by_cases e : x = k
     · simp [e] at hx
-    · simp [e] at hx; rw [h11] at hv; rw [h1, h3]; exact hi.validOk x hx hv
+    · simp [e] at hx; rw [h11] at hv; rw [h1, h3, h13]; exact hi.validOk x hx hv
   · intro ht x hx
     rw [h9] at ht; rw [h11]; rw [hst'] at hx
     by_cases e : x = k
     · simp [e] at hx
     · simp [e] at hx; exact hi.validIdle ht x hx
+  · rw [h12, h13]; exact hi.sigAtOk
+  · intro x hx
+    rw [h12]; rw [hst'] at hx
+    by_cases e : x = k
+    · simp [e] at hx
+    · simp [e] at hx; exact hi.scanReg x hx
 
 end LLBuild.Engine
